@@ -9,6 +9,9 @@ TRUST = ("Trusted base: Go type checker and go/ssa construction (x/tools v0.29.0
 
 # id -> (claimed?, technique, level text, not-decided / note, design ref)
 P = {
+ "C10": (True, "static analysis: CFG path rules on sender/connect/reconnect/NodeStream, provenance of stream contexts and metadata, goroutine-root call paths for the wake-up rule",
+         "Decides retry-per-request (isConnected test and connect before a request's fate; connect dials+streams or reconnects), that every stream context derives from the channel's parent context built by newContext with manager and per-node metadata, that the server callback runs once per stream before the receive loop with the stream context, that the reader's back-off wait is woken by whoever else re-establishes the stream, and that the reader is started once. Necessary structural conditions.",
+         "Not decided: that redial succeeds; promptness in seconds.", "DESIGN.md section 3, C10"),
  "C03": (True, "static analysis: who-may-X over resolved SSA callees, must-pass-through on entry points, sender and NodeStream",
          "Decides the structural chain behind per-node FIFO: synchronous hand-off into one queue per node on the caller's goroutine for every targeted node before go/return, one producer function, one consumer goroutine started once per node, one stream writer called once per dequeued request, and on the server: release-before-next-receive, one handler start per freshly allocated received message, handler/stub name bijection. Necessary structural conditions.",
          "Not decided: in-order delivery by gRPC and Go channels (trusted); liveness.", "DESIGN.md section 3, C03"),
